@@ -26,6 +26,29 @@ type c24Case struct {
 	// Stall: the second in-process run is held up by the host for 2.3 s of wall-clock time in the middle (between two
 	// frames): emulated time is counted in machine cycles, so a slow or stalled host must not change anything
 	Stall bool `json:"stall,omitempty"`
+	// Twin: a different ROM whose complete header (title, type, sizes, both checksums) is byte-identical to ROM's; it
+	// is run in this process BEFORE the first run and between the two runs, while the separate process runs ROM alone:
+	// nothing the emulator remembers about one cartridge may be taken for another's
+	Twin string `json:"twin,omitempty"`
+}
+
+// twinROM: MBC1+RAM images with identical headers (non-zero checksums) whose programs differ only in immediate
+// operands: each sends its letter to the serial port and stores it in cartridge RAM and work RAM, then counts.
+func twinROM(letter byte) []byte {
+	img := machine.ProgramCart(0x03, 0x02, map[uint16][]byte{0x100: {0xc3, 0x50, 0x01}, 0x150: {
+		0x3e, 0x0a, 0xea, 0x00, 0x00, // RAM enable
+		0x3e, letter, 0xe0, 0x01, 0xea, 0x00, 0xa0, 0xea, 0x00, 0xc0, // LD A,letter; LDH (01),A; LD (A000),A; LD (C000),A
+		0x3e, 0x81, 0xe0, 0x02, // SC
+		0x21, 0x01, 0xc0, 0x34, 0x18, 0xfd, // LD HL,C001; INC (HL); JR -3
+	}})
+	copy(img[0x134:], "TWINCART")
+	img[0x14d], img[0x14e], img[0x14f] = 0x5a, 0xbe, 0xef
+	return img
+}
+
+func init() {
+	c26Synthetic["synthetic:twin-a"] = twinROM('A')
+	c26Synthetic["synthetic:twin-b"] = twinROM('B')
 }
 
 // guest program for an MBC3+TIMER cartridge: latches and reads the seconds register in a loop and sends every new
@@ -90,6 +113,9 @@ func init() {
 func c24Check(c *Ctx) func(l *explore.Local, _ struct{}, cs c24Case) *explore.Fail {
 	return func(l *explore.Local, _ struct{}, cs c24Case) *explore.Fail {
 		rom := c24ROMPath(c, cs.ROM)
+		if cs.Twin != "" {
+			c24Run(c24ROMPath(c, cs.Twin), cs.Sched, 3)
+		}
 		a, err := c24Run(rom, cs.Sched, cs.Frames)
 		if err != nil {
 			// a ROM the emulator cannot load or that executes an undefined opcode is not a determinism question
@@ -98,6 +124,9 @@ func c24Check(c *Ctx) func(l *explore.Local, _ struct{}, cs c24Case) *explore.Fa
 		}
 		// something else runs in between
 		other := filepath.Join(c.Repo, "gameboy/testdata/blargg/halt_bug.gb")
+		if cs.Twin != "" {
+			other = c24ROMPath(c, cs.Twin)
+		}
 		c24Run(other, (cs.Sched+1)%len(btnSchedules), 3)
 		var stall []int
 		if cs.Stall {
@@ -167,7 +196,7 @@ func c24ROMs(repo string) []string {
 func init() {
 	register("C24", "exploration", func(c *Ctx) {
 		if c.R != nil {
-			c.R.Rule = "every non-empty ROM under testdata x fixed button schedules: the ROM is run through the real gameboy.New / runFrame with display, speakers and serial writer attached, twice in this process (with another ROM run in between) and once in a separate process; after every frame a hash of (registers, every writable memory region, ROM-window probes, frame pixels, drained samples, serial bytes, RTC and APU generator state) and at the end a hash of the full 64 KiB space and the cartridge RAM dump must agree between all three runs; plus six synthetic guest programs (one of them switches the noise generator between its long and short register at 96 phases after a trigger), and three runs in which the host stalls the second run for 2.3 s of wall-clock time between two frames (emulated time is counted in machine cycles, so nothing may change); a case = one (ROM, schedule); non-trivial = distinct final state hashes"
+			c.R.Rule = "every non-empty ROM under testdata x fixed button schedules: the ROM is run through the real gameboy.New / runFrame with display, speakers and serial writer attached, twice in this process (with another ROM run in between) and once in a separate process; after every frame a hash of (registers, every writable memory region, ROM-window probes, frame pixels, drained samples, serial bytes, RTC and APU generator state) and at the end a hash of the full 64 KiB space and the cartridge RAM dump must agree between all three runs; plus two cartridges with byte-identical headers and different programs, each run after and between runs of the other in this process and alone in the separate process; plus six synthetic guest programs (one of them switches the noise generator between its long and short register at 96 phases after a trigger), and three runs in which the host stalls the second run for 2.3 s of wall-clock time between two frames (emulated time is counted in machine cycles, so nothing may change); a case = one (ROM, schedule); non-trivial = distinct final state hashes"
 			c.R.Assumptions = []string{"differential replay: there is no nondeterministic choice inside the emulator to enumerate; the check demonstrates that rather than assuming it", "ROMs that the constructor rejects or that run into an undefined opcode are skipped"}
 		}
 		frames, scheds := 60, []int{0, 2}
@@ -187,6 +216,12 @@ func init() {
 				// synthetic guest programs (cartridge clock reader; STOP; HALT forever; LCD and sound off; clock halted + DMA)
 				for _, r := range []string{"synthetic:mbc3-clock", "synthetic:stop", "synthetic:halt-forever", "synthetic:lcd-and-sound-off", "synthetic:rtc-halted-dma", "synthetic:noise-width-phases"} {
 					if !yield(c24Case{ROM: r, Sched: 0, Frames: frames}) {
+						return
+					}
+				}
+				// look-alike cartridges: identical headers, different programs
+				for _, pr := range [][2]string{{"synthetic:twin-a", "synthetic:twin-b"}, {"synthetic:twin-b", "synthetic:twin-a"}} {
+					if !yield(c24Case{ROM: pr[0], Twin: pr[1], Sched: 0, Frames: 5}) {
 						return
 					}
 				}
